@@ -140,8 +140,7 @@ def recount(segs, check_lx=False):
                 parent = el(e, 2)
                 ex = hl_defined
                 if parent is None or parent == '':
-                    if n_hl > 1:
-                        hl_defined = False   # a second root: what counts as "current path" afterwards is unspecified
+                    # a new top level (the next billing provider of an 837): everything under the earlier ones is closed
                     path = [n_hl]
                 else:
                     p = toint(parent)
